@@ -1,11 +1,13 @@
 /-
   Props.C27 — replication forwards every queued batch, in order, until accepted.
-  Model: Influx.Model.Replication; statement checker: Influx.Spec.C27.holdsOn.
+  Model: Influx.Model.Replication (SendWrite loop, writer decision table, backoff,
+  Retry-After, max-age clamp and purge, over an abstract segmented queue);
+  statement checker: Influx.Spec.C27.holdsOn.
 -/
-import Influx.Lemmas.Replication
+import Influx.Lemmas.ReplicationSim
 
 namespace Influx.Props.C27
-open Influx.Repl Influx.Spec.C27
+open Influx.Repl Influx.Spec.C27 Influx.Generated.Replication
 
 /-- the writer's backoff is the documented one, for every attempt count -/
 theorem C27_backoff_table (n : Nat) : (backoff n : Int) = docBackoff n := backoff_eq_doc n
@@ -13,5 +15,50 @@ theorem C27_backoff_table (n : Nat) : (backoff n : Int) = docBackoff n := backof
 /-- a write lets the batch go exactly when the remote answered 204, or 400 with dropping enabled -/
 theorem C27_release_iff (drop : Bool) (attempts : Nat) (r : Resp) :
     writeDecision drop attempts r = .ok ↔ releases drop r = true := writeDecision_ok_iff drop attempts r
+
+/-- every failed write returns the documented delay (backoff / Retry-After rules),
+    for every response, attempt count and header value -/
+theorem C27_delay_documented (drop : Bool) (attempts : Nat) (r : Resp) (w : Int)
+    (h : writeDecision drop attempts r = .fail w) : delayOk attempts r w = true :=
+  delayOk_of_fail drop attempts r w h
+
+/-- **C27 for the model, every history and every response script** (unbounded):
+    the statement checker accepts the model's trace.  Hypothesis: the segment
+    size handed to the durable queue is at least the 8-byte footer (`ValidOp`);
+    what is missing without it: a queue whose segments cannot hold a footer
+    rejects every append, which the abstract queue of this model does not
+    describe (C26's byte-level model does). -/
+theorem C27_holdsOn_partial (ops : List Op) (hv : ∀ op ∈ ops, ValidOp op) :
+    holdsOn (trace init ops) = true := by
+  obtain ⟨ms', hrel⟩ := sim_trace ops init none (by simp [init, Rel]) hv
+  unfold holdsOn run
+  cases hfin : List.foldl sstep none (trace init ops) with
+  | none => rfl
+  | some ws =>
+    rw [hfin] at hrel
+    cases ms' with
+    | none => exact absurd hrel (by simp [Rel])
+    | some st =>
+      obtain ⟨s, hs, _⟩ := hrel
+      cases ws with
+      | nil => cases hs
+      | cons _ _ => rfl
+
+/-- the hypothesis is met by non-trivial histories -/
+example : ∀ op ∈ [Op.init true 3600 1024, .enq [1, 2], .send [{ kind := 0, status := 500 }], .age, .purge, .dump],
+    ValidOp op := by
+  intro op h; simp at h; rcases h with rfl | rfl | rfl | rfl | rfl | rfl <;> simp [ValidOp]
+
+/-- **C27 in the production configuration**: every replication queue is created
+    with `durablequeue.DefaultSegmentSize` (`InitializeQueue`, `StartReplicationQueues`);
+    no other hypothesis. -/
+theorem C27_holdsOn_production (ops : List Op)
+    (hprod : ∀ d a g, Op.init d a g ∈ ops → g = DefaultSegmentSize) :
+    holdsOn (trace init ops) = true := by
+  apply C27_holdsOn_partial
+  intro op hop
+  cases op with
+  | init d a g => rw [hprod d a g hop]; simp [ValidOp, DefaultSegmentSize]
+  | _ => trivial
 
 end Influx.Props.C27
